@@ -186,6 +186,8 @@ def h_tool(k: int, **sym):
     bound_int(fi, 0, 3)          # 0 stdin, 1 one file, 2 two files
     text = progs.pick(si, STREAMS)
     argv = argv_of(o)
+    from vflib.engine import case
+    case((argv, 'stdin' if fi == 0 else f'{fi} file(s)', text))
     try:
         if fi == 0:
             code, out, err = cli.run_main(argv, stdin_text=text)
